@@ -130,6 +130,8 @@ def run_harness(exe, lines, extra_args=(), timeout=1800):
         return None, "harness timed out after %ds" % timeout
     outl = p.stdout.split("\n")
     if outl and outl[-1] == "": outl.pop()
+    if p.returncode == 5 and len(outl) == len(lines) + 1:
+        return outl, "THREADS-DIFFER: " + p.stderr[-500:]
     if p.returncode != 0 or len(outl) != len(lines) + 1:
         # crashed / sanitizer abort: report how far it got
         return outl, "harness exited with %d after %d of %d lines\n%s" % (p.returncode, len(outl), len(lines) + 1, p.stderr[-3000:])
@@ -144,7 +146,7 @@ def run_judge(lines, outs, timeout=3600):
         raise RuntimeError("judge failed: rc=%d, %d verdicts for %d lines\n%s" % (p.returncode, len(v), len(outs), p.stderr[-2000:]))
     return v
 
-def correspond(cfg, lines, log, harness_args=()):
+def correspond(cfg, lines, log, harness_args=(), selfcheck=False):
     """returns dict(cfg, n, ok, skipped, fails=[(line, out, verdict)], crash=None|text)"""
     exe, err = build_harness.build(cfg.split("+")[0], REPO)
     if err:
@@ -156,7 +158,10 @@ def correspond(cfg, lines, log, harness_args=()):
     if outs is None:
         return {"cfg": cfg, "n": 0, "ok": 0, "skipped": 0, "fails": [], "crash": crash}
     k = min(len(outs), len(lines) + 1)
-    verdicts = run_judge(lines[:k - 1], outs[:k]) if k >= 1 else []
+    if selfcheck:
+        verdicts = ["ok"] + [("ok" if o.startswith("EQ") else ("skip unsupported" if o.startswith("UNSUPPORTED") else "FAIL C function and C++ operation disagree: " + o)) for o in outs[1:k]]
+    else:
+        verdicts = run_judge(lines[:k - 1], outs[:k]) if k >= 1 else []
     fails = []; ok = 0; skipped = 0
     for i in range(1, k):
         v = verdicts[i]
